@@ -336,7 +336,24 @@ def history(ctx, fmt, workdir, events):
                 ev['new'], p2 = w.project(r)
                 ev['problems'] += p2
             log(ev)
-        elif q < 0.70:
+        elif q < 0.68:
+            # export: the Bus is written to another store file; every Frame is read (under the bound, one at a time) and written
+            fmt2 = rng.choice(['zip_pickle', 'zip_csv', 'zip_tsv', 'sqlite'])
+            fp2 = os.path.join(workdir, 'export%d%s' % (step, EXT[fmt2]))
+            kw = {'config': config_for(fmt2)} if config_for(fmt2) is not None else {}
+            out, _ = w.outcome_of(lambda: getattr(bus, 'to_' + fmt2)(fp2, **kw))
+            post, problems = w.project(bus)
+            ok = True
+            if out == 'ok':
+                try:
+                    back = getattr(sf.Bus, 'from_' + fmt2)(fp2, **kw)
+                    ok = [str(x) for x in back.keys()] == [name_of(lab) for lab in pre['labels']] and all(decode(back[name_of(lab)]) == (lab, 1) for lab in pre['labels'])
+                except Exception:
+                    ok = False
+            if os.path.exists(fp2):
+                os.remove(fp2)
+            log({'name': 'export', 'bus': i + 1, 'sel': pre['labels'], 'route': 'to_' + fmt2, 'pre': pre, 'post': post, 'outcome': out, 'got': 0, 'ok': bool(ok), 'problems': problems, 'coh': coh, 'fver': fver})
+        elif q < 0.72:
             # sort_values: every Frame is visited (under the bound, one at a time), then a Bus in the sorted order is derived
             asc = rng.random() < 0.5
             out, r = w.outcome_of(lambda: bus.sort_values(ascending=asc, key=lambda s: s.iter_element().apply(lambda f: int(f.loc['x', 'a']))))
@@ -348,7 +365,7 @@ def history(ctx, fmt, workdir, events):
                 ev['new'], p2 = w.project(r)
                 ev['problems'] += p2
             log(ev)
-        elif q < 0.76:
+        elif q < 0.78:
             # items() / values: everything at once without a bound, one label at a time with one
             which = rng.choice(['items', 'values'])
             if pre['mp'] == 0:
